@@ -184,6 +184,8 @@ class SymEx:
         self.depth = 0
         self.roundings = 0
         self.reads_undef = []
+        self.narrowings = []      # (to, from) of every precision-losing cast of a non-constant value
+        self.narrow_bad = []      # those that narrow below the result type of the function under contract
         self.pc = []             # path condition stack (bool terms)
         self.libm_calls = 0
 
@@ -549,6 +551,11 @@ class SymEx:
             t = e[1]
             if t[0] == 'f':
                 a = self.tonum(a)
+                src0 = e[2][1]
+                if src0[0] == 'f' and not is_num(a) and not self.wider_eq(t, src0):
+                    # a non-constant value loses precision here; whether that is legitimate depends on the precision of the
+                    # result it flows into (judged by SymCall against the result type of the function under contract)
+                    self.narrowings.append((t[1], src0[1]))
                 if self.mode == 'LIT' and is_num(a):
                     return num(self.rnd(a[1], t))
                 if self.mode == 'NOISY':
@@ -617,7 +624,8 @@ class SymEx:
                     if tok[1] != '':
                         out.append((TRUE, ('LIT', tok[1])))
                 elif tok[0] in ('NUM', 'INT'):
-                    out.append((TRUE, (tok[0], self.tonum(self.ev(tok[1], env, st)))))
+                    # NUM carries the numeric type PhQ::Print was instantiated for (it fixes the number of digits)
+                    out.append((TRUE, (tok[0], self.tonum(self.ev(tok[1], env, st))) + tuple(tok[2:3])))
                 elif tok[0] == 'ABBR':
                     out.append((TRUE, ('ABBR', tok[1], self.tonum(self.ev(tok[2], env, st)))))
                 elif tok[0] == 'SUB':
